@@ -331,6 +331,19 @@ func runC06(r *rt.Run) {
 		})
 		w.States += n
 	})
+	// every seed with each node of its JSON tree replaced by another kind (the
+	// accepted ones: foreign member values, properties, ids ...)
+	r.ParFor(len(seeds), func(i int, w *rt.Worker) {
+		for _, text := range kindSwaps(seeds[i]) {
+			w.States++
+			for _, os := range sets {
+				w.Evals++
+				c06One(text, os, func(class string, c rt.Case, exp, got string) {
+					w.Fail(class, func() (rt.Case, string, string) { return c, exp, got })
+				})
+			}
+		}
+	})
 	// large documents, as they are
 	large := docgen.LargeDocs()
 	r.Bounds["large_documents"] = len(large)
